@@ -82,7 +82,7 @@ def cli_sig(o):
         return ("internal", o.get("exc"), core.site_key(o.get("site")))
     if end == "hang":
         return ("hang", core.site_key(o.get("site"), with_line=False))
-    if o.get("reports"):
+    if o.get("reports") and o["reports"][0]["files"]:
         f = o["reports"][0]["files"]
         if len(f) == 1:
             d = f[0]["diags"]
